@@ -6,7 +6,9 @@ Decided statically (abstract interpretation of MIR; nothing is run):
   R-C03-parser-sets-negation    every GuardAccessClause / GuardNamedRuleClause the parser builds takes `negation` from the
                                 presence of the `not`/`NOT`/`!` prefix it parsed (only the synthesized type-block filter is constant)
   R-C03-flip-tables             not_operation / inverse_operation closures, the `empty` result-set special case, the
-                                operator-level flip of (CmpOperator, bool) and the named-rule clause table
+                                operator-level flip of (CmpOperator, bool) and the named-rule clause table; a flipped query-vs-query
+                                result is rebuilt with a recomputed difference list (never the comparison's own list under the
+                                opposite verdict)
   R-C03-duality                 table algebra: flipping Success/Fail of the C13 tables gives `not X > v == X <= v` etc.
 """
 import re
